@@ -88,62 +88,75 @@ Proof. exact (irrelevant_inputs teval teval_ext_svc true). Qed.
 
 (* the pinned commit: boxed context entries leaked into the enclosing context *)
 Theorem C04_context_leak_orig_refuted :
-  teval_orig (fun _ _ => VNull) [] leak_logic = VCtx [(2001%N, VCtx [(2002%N, VNum 42)]); (2003%N, VNum 42)] /\
-  teval (fun _ _ => VNull) [] leak_logic = VCtx [(2001%N, VCtx [(2002%N, VNum 42)]); (2003%N, VNull)].
+  teval_orig (fun _ _ => VNull) [] leak_logic = VCtx [(2001%N, VCtx [(2002%N, vnum 42)]); (2003%N, vnum 42)] /\
+  teval (fun _ _ => VNull) [] leak_logic = VCtx [(2001%N, VCtx [(2002%N, vnum 42)]); (2003%N, VNull)].
 Proof. exact context_leak_orig_refuted. Qed.
 (* the pinned commit: a knowledge model requiring a decision service received the service's value, not a function *)
 Theorem C04_knowledge_service_orig_refuted :
   topo_ok G_ks O_ks = true /\ callable_ok G_ks = true /\
-  impl_invoke teval true G_ks 6 5%N [(1%N, VNum 1)] = VNum 20 /\
-  impl_invoke teval false G_ks 6 5%N [(1%N, VNum 1)] = VNull.
+  impl_invoke teval true G_ks 6 5%N [(1%N, vnum 1)] = vnum 20 /\
+  impl_invoke teval false G_ks 6 5%N [(1%N, vnum 1)] = VNull.
 Proof. exact knowledge_service_orig_refuted. Qed.
 
 Example C04_nonvacuous :
   topo_ok G_ex O_ex = true /\ callable_ok G_ex = true /\
-  impl_invoke teval true G_ex 11 6%N [(1%N, VNum 2); (2%N, VNum 3)] = VNum 18 /\
-  impl_invoke teval true G_ex 11 10%N [(1%N, VNum 2); (2%N, VNum 3); (3001%N, VNum 9)] =
-    VCtx [(2001%N, VNum 54); (2002%N, VCtx [(6%N, VNull); (4%N, VNum 36)])] /\
+  impl_invoke teval true G_ex 11 6%N [(1%N, vnum 2); (2%N, vnum 3)] = vnum 18 /\
+  impl_invoke teval true G_ex 11 10%N [(1%N, vnum 2); (2%N, vnum 3); (3001%N, vnum 9)] =
+    VCtx [(2001%N, vnum 54); (2002%N, VCtx [(6%N, VNull); (4%N, vnum 36)])] /\
   closure_names G_ex O_ex 6%N = [6; 4; 1; 3; 1; 2; 5; 2; 3; 1; 2]%N.
 Proof. exact nonvacuous. Qed.
 
 (* teval IS the FEEL evaluator model of C01 (C01/Spec.v eval_spec = the scope-stack machine C01/Impl.v run_impl that
-   transliterates feel-evaluator/src/builders.rs) on the fragment both express: null, numbers, strings, names, + *, literal
-   invocation f(a, b) of a knowledge-model function value, boxed context with or without result entry (tr_e, tr_v, tr_env in
-   C04/LinkC01.v; boxed invocation, relation and decision-service function values have no C01 counterpart).
-   shared f sc e = true: the evaluation of e in sc stays inside that fragment within f levels, every sum and product has
-   at most 34 digits (C01 rounds to decimal128), no string + string and no repeated formal argument name (on those two
-   the models differ: C04_teval_feel_corners).  zsign: up to the sign of zero (-3 * 0 is -0 in decimal128, 0 in Z). *)
+   transliterates feel-evaluator/src/builders.rs) on the fragment both express: null, numbers (decimal128 data with the
+   rounded + * of Base/DecRound.v on both sides), strings (+ concatenates), names, literal invocation f(a, b) of a
+   knowledge-model function value (formal parameters set one after the other: of two equal names the last argument wins),
+   boxed context with or without result entry (tr_e, tr_v, tr_env in C04/LinkC01.v; boxed invocation, relation and
+   decision-service function values have no C01 counterpart).
+   shared f sc e = true: the evaluation of e in sc stays inside that fragment within f levels — no other hypothesis:
+   numbers of any size, string operands and repeated formal parameter names are covered.  The values are EQUAL
+   (the sign of a zero included). *)
 Theorem C04_teval_is_feel_eval : forall svc sc e fuel, shared TFUEL sc e = true -> 2 * TFUEL <= fuel ->
-  zsign (C01.Spec.eval_spec fuel (tr_env sc) (tr_e e)) = tr_v (teval svc sc e) /\
-  zsign (fst (C01.Impl.run_impl fuel (tr_env sc) (tr_e e))) = tr_v (teval svc sc e) /\
+  C01.Spec.eval_spec fuel (tr_env sc) (tr_e e) = tr_v (teval svc sc e) /\
+  fst (C01.Impl.run_impl fuel (tr_env sc) (tr_e e)) = tr_v (teval svc sc e) /\
   snd (C01.Impl.run_impl fuel (tr_env sc) (tr_e e)) = tr_env sc.
 Proof. exact teval_is_feel_eval. Qed.
 
 (* the same for every fuel f of the tiny evaluator, every enumeration function of C01's eval and every C01 stack that binds
    the names as the C04 scope does *)
 Theorem C04_tev_is_feel_eval : forall cartf svc f sc S e g, shared f sc e = true -> 2 * f <= g -> srel sc S ->
-  zsign (C01.Spec.eval cartf g S (tr_e e)) = tr_v (fst (tev false f svc sc e)).
+  C01.Spec.eval cartf g S (tr_e e) = tr_v (fst (tev false f svc sc e)).
 Proof. exact tev_is_feel_eval. Qed.
 
 Example C04_teval_is_feel_eval_nonvacuous :
   shared TFUEL link_env link_e = true /\
-  teval no_svc link_env link_e = VNum (-24) /\
+  teval no_svc link_env link_e = vnum (-24) /\
   C01.Spec.eval_spec 120 (tr_env link_env) (tr_e link_e) = C01.Syntax.VNum (Base.Dec.of_Z (-24) 0) /\
   fst (C01.Impl.run_impl 120 (tr_env link_env) (tr_e link_e)) = C01.Syntax.VNum (Base.Dec.of_Z (-24) 0) /\
-  shared TFUEL link_env (ECall 1%N [ENum 5]) = true /\ teval no_svc link_env (ECall 1%N [ENum 5]) = VNull /\
+  shared TFUEL link_env (ECall 1%N [enum 5]) = true /\ teval no_svc link_env (ECall 1%N [enum 5]) = VNull /\
   shared TFUEL link_env (EAdd (EVar 2%N) ENull) = true /\ teval no_svc link_env (EAdd (EVar 2%N) ENull) = VNull.
 Proof. exact link_nonvacuous. Qed.
 
-(* outside the hypotheses the two models differ; the real code answers as C01 does ("ab", 2, 1E+34) *)
+(* the former corners, now agreement examples: the three places where an earlier tiny evaluator (integers in Z, no string
+   case in +, the first of two equal formal parameter names bound) differed from C01 and from the real code are inside the
+   hypotheses, and teval, C01 and the real code (dv model: "ab", 2, 1E+34, -0) answer alike:
+   "a" + "b" (and string + number, string * string = null); f(1, 2) for formal parameters (x, x) and body x;
+   a * a + 1 at a = 10^17 (35 digits, rounded to 1E+34) and a 35-digit literal (rounded half-even when read); -3 * 0 = -0 *)
 Theorem C04_teval_feel_corners :
-  (teval no_svc [] (EAdd (EStr 97%N) (EStr 98%N)) = VNull /\
-   C01.Spec.eval_spec 5 (tr_env []) (tr_e (EAdd (EStr 97%N) (EStr 98%N))) = C01.Syntax.VStr [97%N; 98%N]) /\
-  (let sc := [(1%N, VBkm [10%N; 10%N] (EVar 10%N))] in let e := ECall 1%N [ENum 1; ENum 2] in
-   teval no_svc sc e = VNum 1 /\ C01.Spec.eval_spec 5 (tr_env sc) (tr_e e) = C01.Syntax.VNum (Base.Dec.of_Z 2 0)) /\
-  (let e := EAdd (EMul (ENum (10 ^ 17)) (ENum (10 ^ 17))) (ENum 1) in
-   shared TFUEL [] e = false /\ teval no_svc [] e = VNum (10 ^ 34 + 1) /\
-   C01.Spec.eval_spec 5 (tr_env []) (tr_e e) = C01.Syntax.VNum (Base.Dec.mkdec false (10 ^ 33) 1)).
-Proof. exact (conj str_concat_differs (conj dup_params_differ rounding_differs)). Qed.
+  (let e := EAdd (EStr [97%N]) (EStr [98%N]) in
+   shared TFUEL [] e = true /\ teval no_svc [] e = VStr [97%N; 98%N] /\
+   C01.Spec.eval_spec 5 (tr_env []) (tr_e e) = C01.Syntax.VStr [97%N; 98%N] /\
+   teval no_svc [] (EAdd (EStr [97%N]) (enum 1)) = VNull /\ teval no_svc [] (EMul (EStr [97%N]) (EStr [98%N])) = VNull) /\
+  (let sc := [(1%N, VBkm [10%N; 10%N] (EVar 10%N))] in let e := ECall 1%N [enum 1; enum 2] in
+   shared TFUEL sc e = true /\ teval no_svc sc e = vnum 2 /\
+   C01.Spec.eval_spec 5 (tr_env sc) (tr_e e) = C01.Syntax.VNum (Base.Dec.of_Z 2 0)) /\
+  (let e := EAdd (EMul (enum (10 ^ 17)) (enum (10 ^ 17))) (enum 1) in
+   shared TFUEL [] e = true /\ teval no_svc [] e = VNum (Base.Dec.mkdec false (10 ^ 33) 1) /\
+   C01.Spec.eval_spec 5 (tr_env []) (tr_e e) = C01.Syntax.VNum (Base.Dec.mkdec false (10 ^ 33) 1) /\
+   num_lit 99999999999999999999999999999999995 = Base.Dec.mkdec false (10 ^ 33) 2) /\
+  (let e := EMul (enum (-3)) (enum 0) in
+   shared TFUEL [] e = true /\ teval no_svc [] e = VNum (Base.Dec.mkdec true 0 0) /\
+   C01.Spec.eval_spec 5 (tr_env []) (tr_e e) = C01.Syntax.VNum (Base.Dec.mkdec true 0 0)).
+Proof. exact (conj str_concat_agrees (conj dup_params_agree (conj rounding_agrees negative_zero_agrees))). Qed.
 
 
 Print Assumptions C04_refines.
